@@ -70,6 +70,15 @@ class C23(Prop):
             if draw(st.booleans()) and len(steps) < 6:
                 steps.append({"name": names[len(steps)], "role": "step", "accepts": [draw(st.sampled_from(["Reply", "HumanResponseEvent"]))],
                               "returns": [draw(st.sampled_from(["GStop", "Ask", "InputRequiredEvent"]))], "skip": []})
+            hitl_steps = [x for x in steps if x["role"] == "step" and x["accepts"][0] in ("Reply", "HumanResponseEvent")]
+            if hitl_steps and draw(st.booleans()) and len(steps) < 6:
+                # the human-in-the-loop events are ALSO handled inside the workflow: an audit step consumes the request,
+                # and/or an auto-answer path produces the response type
+                h = hitl_steps[0]
+                if h["returns"][0] in ("Ask", "InputRequiredEvent") and draw(st.booleans()):
+                    steps.append({"name": names[len(steps)], "role": "step", "accepts": [h["returns"][0]], "returns": [draw(st.sampled_from(["GStop", "GStop", "E3"]))] if draw(st.booleans()) else [], "skip": []})
+                if draw(st.booleans()) and h["accepts"][0] == "Reply":
+                    steps[0]["returns"].append("Reply")
             if draw(st.integers(0, 3)) == 0 and len(steps) <= 4:
                 # a branch that leads nowhere: producer -> E3 -> sink; valid only when the producer skips the dead_end check
                 src = draw(st.sampled_from(steps[: max(1, len(chain) - 1)]))
